@@ -98,7 +98,7 @@ pub struct Sync {
     pub now: u64,
 }
 
-fn emit_hb(out: &mut Out, st: &mut Sync, budget: u64) {
+fn emit_hb(out: &mut Out, st: &mut Sync, budget: u64) -> bool {
     c::set_budget(budget);
     let mut f: Fut = Box::pin(can::heartbeat());
     let r = poll(&mut f);
@@ -114,7 +114,10 @@ fn emit_hb(out: &mut Out, st: &mut Sync, budget: u64) {
         }
     };
     out.count(&format!("hb:{}", phase.split(' ').take(2).collect::<Vec<_>>().join("-")));
-    out.emit(&format!("c hb {}", budget), &format!("{} | {}", phase, summary()));
+    // after a native panic the state is not rolled back: its summary is meaningless
+    let sum = if phase == "trap" { "-".to_string() } else { summary() };
+    out.emit(&format!("c hb {}", budget), &format!("{} | {}", phase, sum));
+    phase == "trap"
 }
 
 fn emit_reply(out: &mut Out, st: &mut Sync, op: &str, reply: GetSuccessorsReply) {
@@ -307,6 +310,19 @@ fn build_reply(out: &mut Out, rng: &mut Rng, st: &mut Sync, thorough: bool) -> (
     )
 }
 
+/// Labelled answers of every query endpoint (C09: must be identical before and after an upgrade).
+fn observation_vector(st: &Sync, addrs: &[String]) -> Vec<(String, String)> {
+    let net = st.case.network;
+    let mut v = vec![("info".to_string(), c::get_info())];
+    for (i, a) in addrs.iter().enumerate() {
+        v.push((format!("utxos{}", i), c::get_utxos_all(a, net, &c::Filter::None, None)));
+        v.push((format!("balance{}", i), c::get_balance(a, net, None)));
+    }
+    v.push(("headers".to_string(), c::get_headers(net, 0, None)));
+    v.push(("synced".to_string(), format!("{}", can::verif_hooks::is_synced() as u8)));
+    v
+}
+
 fn fees_text(f: &Fees) -> String {
     format!(
         "{},{},{},{},{},{},{},{},{},{},{},{}",
@@ -496,7 +512,7 @@ pub fn run_case(out: &mut Out, rng: &mut Rng, thorough: bool, case_no: u64) {
     let t2 = std::time::Instant::now();
     let world = World::new(network, rng);
     out.count_n("time_us:world-new", t2.elapsed().as_micros() as u64);
-    let mut st = Sync { case: Case { world, alive: vec![0], network, thr, mode: DiffMode::Small }, pending: vec![], undelivered: vec![], now: 2_000_000_000 };
+    let mut st = Sync { case: Case { walk: None, world, alive: vec![0], network, thr, mode: DiffMode::Small }, pending: vec![], undelivered: vec![], now: 2_000_000_000 };
     let t3 = std::time::Instant::now();
     c::fresh_init(network, thr as u128, fees.clone());
     out.count_n("time_us:fresh-init", t3.elapsed().as_micros() as u64);
@@ -511,12 +527,25 @@ pub fn run_case(out: &mut Out, rng: &mut Rng, thorough: bool, case_no: u64) {
     let mut fp = format!("{}", thr);
     let mut script: Vec<(String, GetSuccessorsReply)> = vec![];
     for _ in 0..steps {
-        let r = rng.below(100);
+        let mut r = rng.below(100);
+        // while a block is being ingested in slices, favour the messages whose interaction with the
+        // paused state matters: further small slices, upgrades, and full query batches
+        let ingesting = can::with_state(|s| s.utxos.ingesting_block.is_some());
+        if ingesting {
+            r = *rng.pick(&[0u64, 0, 72, 72, 95, 95, 95, 85]);
+        }
         let t0 = std::time::Instant::now();
         let kind = if r < 40 { "hb" } else if r < 70 { "reply" } else if r < 76 { "upgrade" } else if r < 82 { "setcfg" } else if r < 90 { "call" } else if r < 94 { "sendtx" } else { "queries" };
         if r < 40 {
-            let budget = if rng.chance(2, 3) { c::UNLIMITED } else { rng.range(0, 10) };
-            emit_hb(out, &mut st, budget);
+            let budget = if ingesting { rng.range(0, 4) } else if rng.chance(2, 3) { c::UNLIMITED } else { rng.range(0, 10) };
+            if emit_hb(out, &mut st, budget) {
+                // a native panic leaves partial effects behind (no rollback): the rest of the native
+                // run corresponds to no IC execution, so the case ends here
+                out.count("case-cut-after-trap");
+                st.pending.clear();
+                can::verif_hooks::set_manual_mode(false);
+                return;
+            }
             fp.push_str(&format!("h{}", budget));
             sync_alive(&mut st.case);
         } else if r < 70 {
@@ -529,7 +558,8 @@ pub fn run_case(out: &mut Out, rng: &mut Rng, thorough: bool, case_no: u64) {
                     }
                 }
                 // occasionally the source deviates from its own script
-                let (op, rp) = if rng.chance(1, 12) {
+                // (more often while follow-up pages are still queued: a reject between pages)
+                let (op, rp) = if rng.chance(1, if script.len() > 1 || script.first().map(|s| s.0.starts_with("c reply followup")).unwrap_or(false) { 4 } else { 12 }) {
                     script.clear();
                     ("c reply reject".to_string(), GetSuccessorsReply::Err(ic_cdk::call::RejectCode::SysTransient, "rejected".into()))
                 } else {
@@ -550,8 +580,16 @@ pub fn run_case(out: &mut Out, rng: &mut Rng, thorough: bool, case_no: u64) {
                 None
             };
             let text = match &cfg { Some(cfgv) => format!("thr={}", cfgv.stability_threshold.unwrap()), None => "-".into() };
+            // C09: everything a user can ask, before and after
+            let addrs = st.case.world.addresses();
+            let before = observation_vector(&st, &addrs);
             let r = c::guarded(|| { can::pre_upgrade(); can::post_upgrade(cfg); });
-            out.emit(&format!("c upgrade {}", text), &format!("{} | {}", if r.is_ok() { "ok" } else { "trap" }, summary()));
+            let after = observation_vector(&st, &addrs);
+            let same = match before.iter().zip(after.iter()).find(|(a, b)| a.1 != b.1) {
+                None => "same=1:-".to_string(),
+                Some((a, _)) => format!("same=0:{}", a.0),
+            };
+            out.emit(&format!("c upgrade {} {}", text, addrs.join(",")), &format!("{} | {} | {}", if r.is_ok() { "ok" } else { "trap" }, summary(), same));
             out.count("upgrade");
             fp.push_str("u");
         } else if r < 82 {
@@ -570,7 +608,7 @@ pub fn run_case(out: &mut Out, rng: &mut Rng, thorough: bool, case_no: u64) {
         } else if r < 94 {
             send_tx(out, rng, &st);
         } else {
-            crate::ledger::queries(out, rng, &st.case, false);
+            crate::ledger::queries(out, rng, &st.case, ingesting);
             out.emit("c q synced", &format!("{}", can::verif_hooks::is_synced() as u8));
         }
         out.count_n(&format!("time_us:{}", kind), t0.elapsed().as_micros() as u64);
